@@ -37,6 +37,8 @@ func runC01(c *Ctx) {
 	ruleResponseOneBeacon(c, "R1.5")
 	ruleRequestedRound(c, "R1.6")
 	ruleHTTPWaiter(c, "R1.7")
+	ruleMemDB(c, "R1.8")       // a beacon served for round r is the stored beacon of round r: the in-memory back-end looks rounds up by equality
+	ruleRoundLabels(c, "R1.8") // and the bolt back-ends label a value with the round of the key it was read under
 }
 
 // ---------------------------------------------------------------------------------------------
